@@ -26,29 +26,5 @@ Proof.
   destruct (v1_sound_proof co sc cs nm fwd ib text pat wp s e score pos H Hp) as [_ [G _]]. exact G.
 Qed.
 
-(* ---------- FuzzyMatchV2 never fails: no out-of-range access, no read of a scratch cell that was not written
-   in the current call (stale slab contents can never influence the result) ---------- *)
-From Fzf Require Import V2MatrixBase V2MatrixFill V2MatrixTrace V2MatrixProofs.
-
-Definition init_p2 := mkP2 [] [] [] [] [] O O 0 O.
-
-Lemma v2_cases co sc cs nm fwd ib text p0 pat' wp cap :
-  let pat := p0 :: pat' in
-  (ib = true -> Forall (fun c => 0 <= c < 128) text) -> (forall c, c < 192 -> co_norm co c = c) ->
-  (* either an early exit whose result is Ok ... *)
-  (exists r, fuzzy_v2 co sc cs nm fwd ib text pat wp cap = Ok r /\
-             (r = NoMatch \/ fuzzy_v2 co sc cs nm fwd ib text pat wp cap = fuzzy_v1 co sc cs nm fwd ib text pat wp \/
-              length pat = 1%nat)) \/
-  (* ... or the full matrix path on a window that all phase-2 facts hold for *)
-  (exists lo hi, (2 <= length pat)%nat /\ (length pat <= length text)%nat /\
-     ascii_fuzzy_index ib text pat cs = Ok (Some (lo, hi)) /\ (lo <= hi <= length text)%nat /\
-     let w := firstn (hi - lo) (skipn lo text) in
-     let st := phase2 co sc cs nm fwd false w O p0 pat (last pat 0) 0 (s_init sc) false init_p2 in
-     p2_pidx st = length pat /\
-     fuzzy_v2 co sc cs nm fwd ib text pat wp cap = v2_after_phase2 fwd wp lo pat st /\ p2_maxScore st <= 0).
-Proof.
-  intros pat Ha Hn.
-  assert (Hlen : length pat = S (length pat')) by reflexivity.
-  pose proof (fuzzy_v2_unfold co sc cs nm fwd ib text pat wp cap) as U. cbv zeta in U.
-  change (match pat with [] => Ok (Match 0 0 0 (if wp then Some [] else None)) | p1 :: _ => ?X p1 end) with (X p0) in U.
-Abort.
+(* FuzzyMatchV2 never fails (no out-of-range access, no read of a scratch cell that was not written in the
+   current call), for all inputs: [v2_total_final] in V2Final.v, built on the case analysis [v2_shape] there. *)
